@@ -1,4 +1,5 @@
 import Jrpc.Model.Wire
+import Jrpc.Proofs.RoundTrip
 /-! # C13 — wire encoding: emitted messages are one-line valid JSON-RPC that parse back -/
 namespace Jrpc.Props.C13
 open Jrpc.Wire Jrpc.Json
@@ -253,6 +254,36 @@ a scalar is refused -/
 example : requestOut [49] [109] (some [110, 117, 108, 108]) = some { id := [49], m := [109] } := by decide
 example : requestOut [49] [109] (some [32, 91, 93]) = some { id := [49], m := [109], p := [32, 91, 93] } := by decide
 example : requestOut [49] [109] (some [53]) = none := by decide
+
+/-! ### emitted requests parse back -/
+
+/-- **emit / parse round trip for requests.** For EVERY method name (any bytes: quotes, control
+characters, U+2028/9, non-BMP ...), every id and every params text that are single trimmed JSON
+values (what `json.Marshal` yields; `partB` is the executable test) - the id a string or number,
+the params an array or object - the bytes the encoder emits are split by the decoder into exactly
+the members written, the keys decode to `jsonrpc`, `id`, `method`, `params`, and the library's own
+member parser returns the same id, the same method and the same params text with no error -/
+theorem emit_parse_roundtrip (j : OutMsg) (hm : j.m ≠ [])
+    (hid : j.id = [] ∨ (partB j.id = true ∧ isValidID j.id = true))
+    (hp : j.p = [] ∨ (partB j.p = true ∧ (firstByte j.p = 91 ∨ firstByte j.p = 123))) :
+    parseMember (memberView (toJSON j)) =
+      { v := version, id := j.id, m := j.m, p := j.p, hasE := false, r := [], extra := false, errs := [] } :=
+  parse_emitted_request j hm (hid.imp id (fun h => ⟨partB_spec _ h.1, h.2⟩)) (hp.imp id (fun h => ⟨partB_spec _ h.1, h.2⟩))
+
+/-- the string escaping is lossless: decoding a quoted method name (or key) gives it back -/
+theorem quote_roundtrip (x : Bytes) : unquote (quote x) = some x := unquote_quote x
+
+/-- and the emitted text is valid JSON whose members are exactly the ones written -/
+theorem emit_members (j : OutMsg) (hm : j.m ≠ [])
+    (hid : j.id = [] ∨ partB j.id = true) (hp : j.p = [] ∨ partB j.p = true) :
+    members (toJSON j) = some (requestMembers j) :=
+  members_request j hm (hid.imp id (partB_spec _)) (hp.imp id (partB_spec _))
+
+-- the premises are satisfiable: a nested params value with strings, escapes, numbers; ids
+example : partB [91, 49, 44, 123, 34, 97, 92, 34, 34, 58, 91, 45, 49, 46, 53, 101, 51, 44, 110, 117, 108, 108, 93, 125, 93] = true := by decide
+example : partB [52, 50] = true ∧ isValidID [52, 50] = true := by decide
+example : partB [34, 120, 34] = true ∧ isValidID [34, 120, 34] = true := by decide
+example : partB [32, 91, 93] = false ∧ partB [91, 93, 32] = false ∧ partB [91, 93, 93] = false := by decide
 
 -- non-vacuity
 example : toJSON { id := [49], m := [109, 34, 10] } =
